@@ -63,8 +63,9 @@ RULE = ("a case is a group of hints: a generated hint, 2-6 hints obtained from i
         "meaning-preserving rewrites and 1-2 hints obtained by one meaning-changing edit; it is non-trivial when the "
         "base hint contains a union, a literal or a bare generic")
 ASSUMPTIONS = [
-    "IdentKeys: id() separates the classes/TypeVars/NewTypes/special forms a hint mentions and is never 0; repr() (and "
-    "the enum-member key) separates literal values — hypotheses of canonical_form / idempotent_cpython, true of CPython; "
+    "IdentKeys: id() separates the classes/TypeVars/NewTypes/special forms a hint mentions and is never 0 — hypothesis of "
+    "canonical_form / idempotent_cpython, true of CPython (that the modelled repr() separates literal values is now a theorem, "
+    "ident_keys_of_ids); "
     "the harness re-checks them on the objects and literal values of every run (suite ident-keys)",
     "hints reach adaptix as constructed by typing: Literal values already de-duplicated by (type, value) and not empty "
     "(TypingBuilt / side conditions of the literal rules), nested Union/Literal/Annotated already flattened (the "
